@@ -594,7 +594,7 @@ def linkage(x, p):
     x.check('set then get on the loaded cart', g.map.get_cell(cx, cy) == val)
 
 
-Q = {'_budget': 600}
+Q = {'_budget': 400}
 HARNESSES = [
     Harness('get_sprite', get_sprite, logic='QF_AUFBV',
             quick=[dict(Q, tw=1, th=1), dict(Q, tw=2, th=2)],
